@@ -35,6 +35,16 @@ def canon(line):
     res, msgs, evs = split_line(line)
     if res.startswith("spub:"): res = "spub:*/" + res.split("/")[1]      # how many of the concurrent spub calls resolve is F16 (oracle)
     keyed = []
+    # a pattern delete that removes several children of one parent sends the parent's ls-subscriber one list per removal, in the
+    # hash order of the children: the intermediate lists are not determined, the last one is (C05), so only that one is compared
+    def is_ls(m):
+        c, d, v = msg_json(m)
+        return (c, tid_of(v)) if d == "S" and isinstance(v, dict) and "lsState" in v else None
+    msgs = [m for i, m in enumerate(msgs) if is_ls(m) is None or i + 1 == len(msgs) or is_ls(msgs[i + 1]) != is_ls(m)]
+    def ls_sub(e):
+        sub, body = e.split(":", 1)
+        return sub if body[:1] == "L" else None
+    evs = [e for i, e in enumerate(evs) if ls_sub(e) is None or i + 1 == len(evs) or ls_sub(evs[i + 1]) != ls_sub(e)]
     parsed = [msg_json(m) for m in msgs]
     if res == "ok" and msgs and all(tid_of(v) in (-1, None) for _, _, v in parsed if isinstance(v, dict)) and any(d == "C" and isinstance(v, dict) and next(iter(v)) in ("set", "publish") for _, d, v in parsed):
         # the pause after a buffer burst: the sleeping tasks of different keys wake up in an order the timer wheel decides, so the
